@@ -1,8 +1,12 @@
-import NfcVerif.Model.Pdu
+import NfcVerif.Model.PduObj
 open NfcVerif NfcVerif.Pdu
 
-/-- requests: `dec <hex>` | `decat <hex> <off> <size>` | `spec <hex>` | `enc <pdu>` | `len <pdu>` -/
+/-- requests: `dec <hex>` | `decat <hex> <off> <size>` | `spec <hex>` | `enc <pdu>` | `len <pdu>` |
+`seq <pdu> ;; <op> ;; <op> ...` (operations on one PDU object, `NfcVerif.Pdu.Obj`) |
+`frmr <flags> <vs> <vsa> <vr> <vra> <pdu>` (`FrameReject.from_pdu`) -/
 def handle (line : String) : String :=
+  if line.startsWith "seq " then Obj.handleSeq (line.drop 4).toString else
+  if line.startsWith "frmr " then Obj.handleFrmr (line.drop 5).toString else
   match line.splitOn " " with
   | ["dec", h] => match parseHex h with
     | some d => showPy Pdu.text (Impl.decode d) | none => "bad-op"
